@@ -216,16 +216,47 @@ pub fn t1_shapes(ctx: &Ctx) {
     }
 }
 
-fn corpus_file(ctx: &Ctx) -> Option<(Vec<u8>, String)> {
+fn corpus_file(ctx: &Ctx, rich: bool) -> Option<(Vec<u8>, String)> {
     let kind = ctx.pick("corpus", 2);
     if kind == 0 {
-        let k = ctx.pick("file", crate::c07::N_FILES + 2);
-        let b = if k < crate::c07::N_FILES { crate::c07::file(k) } else { crate::c17::variant(0) };
-        Some((b, format!("C07/C17 file {k}")))
+        let k = ctx.pick("file", crate::c07::N_FILES + 3);
+        let b = if k < crate::c07::N_FILES {
+            crate::c07::file(k)
+        } else if k < crate::c07::N_FILES + 2 {
+            crate::c17::variant(0)
+        } else {
+            // images whose blobs / masks have length zero, next to ordinary ones
+            use crate::alpha::{cloud, image};
+            use crate::wprog::{run_program, ExecOpts, Op, Program};
+            let mut a = image(4, true, 40, 1);
+            if let Some(v) = &mut a.visual {
+                v.blob.data.clear();
+            }
+            if let Some(pr) = &mut a.projection {
+                if let Some(m) = &mut pr.mask {
+                    m.data.clear();
+                }
+            }
+            let mut c = image(2, true, 25, 2);
+            if let Some(pr) = &mut c.projection {
+                pr.blob.data.clear();
+                if let Some(m) = &mut pr.mask {
+                    m.data.clear();
+                }
+            }
+            let p = Program { guid: "g".into(), ops: vec![Op::Image(a), Op::Cloud(cloud(crate::cat::xyz(crate::cat::F32), 3, 4)), Op::Image(c), Op::Image(image(3, true, 1100, 5))], ..Default::default() };
+            let dev = Dev::empty();
+            let h = dev.handle();
+            let _ = run_program(dev, &p, &ExecOpts::default());
+            h.snapshot()
+        };
+        Some((b, format!("C07/C17/zero-length-blob file {k}")))
     } else {
         let si = ctx.pick("scene", crate::scenes::N_SCENES);
         let scene = crate::scenes::scene(si);
-        let k = Knobs { packets: true, non_data_packets: true, gaps: true, order: true, xml_lexical: true, max_packets: 2, ..Knobs::NONE };
+        // page checksums do not depend on packetisation or XML spelling: the checksum tool gets the
+        // gap / order layouts only, the unpack tool the full menu
+        let k = if rich { Knobs { packets: true, non_data_packets: true, gaps: true, order: true, xml_lexical: true, max_packets: 2, ..Knobs::NONE } } else { Knobs { gaps: true, order: true, ..Knobs::NONE } };
         let (enc, _) = model_file(ctx, &scene, k)?;
         Some((enc.bytes, format!("scene {si} layout {:?}", enc.notes)))
     }
@@ -233,7 +264,7 @@ fn corpus_file(ctx: &Ctx) -> Option<(Vec<u8>, String)> {
 
 /// T2: e57-check-crc exits successfully exactly when every page checksum is valid
 pub fn t2_check_crc(ctx: &Ctx) {
-    let Some((bytes, name)) = corpus_file(ctx) else { return };
+    let Some((bytes, name)) = corpus_file(ctx, false) else { return };
     let pages = bytes.len() / 1024;
     // 0 intact; 1..=pages payload damage; pages+1..=2*pages checksum damage; then truncations
     let d = ctx.pick("damage", 2 * pages + 3);
@@ -276,7 +307,7 @@ pub fn t2_check_crc(ctx: &Ctx) {
 
 /// T3: e57-extract-xml prints raw_xml; e57-unpack writes reader.xml(), the raw values and every blob
 pub fn t3_unpack(ctx: &Ctx) {
-    let Some((bytes, name)) = corpus_file(ctx) else { return };
+    let Some((bytes, name)) = corpus_file(ctx, true) else { return };
     let pages = bytes.len() / 1024;
     let d = ctx.pick("damaged-page", pages + 1); // 0 = intact
     let mut b = bytes.clone();
